@@ -87,7 +87,7 @@ for (rto, rc) in ((500, 7), (500, 1), (3000, 3)):
     _c06.append(H("agent", TMO + "c06_first_rto%d_rc%d" % (rto, rc), timeout=300, mem_gb=4, covers=0, stubs=[CDS],
                   bounds="RTO=%d ms, Rc=%d, Rm symbolic 1..32, first call at an arbitrary instant" % (rto, rc),
                   funcs=["RtoManager::new", "RtoManager::next_rto"]))
-for (rto, rc, i, tier) in ([(500, 7, i, "quick") for i in range(1, 8)] + [(500, 1, 1, "quick"), (500, 2, 1, "quick"), (500, 2, 2, "quick"),
+for (rto, rc, i, tier) in ([(500, 7, i, "quick" if i < 7 else "thorough") for i in range(1, 8)] + [(500, 1, 1, "quick"), (500, 2, 1, "quick"), (500, 2, 2, "quick"),
                            (1, 4, 1, "thorough"), (1, 4, 3, "thorough"), (3000, 3, 1, "thorough"), (3000, 3, 2, "quick"), (3000, 3, 3, "quick"),
                            (500, 10, 1, "thorough"), (500, 10, 5, "thorough"), (500, 10, 9, "thorough"), (500, 10, 10, "thorough"),
                            (100, 5, 1, "thorough"), (100, 5, 3, "thorough"), (100, 5, 5, "thorough"), (250, 4, 2, "thorough"), (250, 4, 4, "thorough")]):
@@ -106,7 +106,7 @@ LIBH = "verif_lib::"
 _c16 = []
 for (name, tier, to, mem) in (("c16_buf28_s26_l4_cut1", "quick", 900, 10), ("c16_buf24_s26_l4_cut1", "quick", 900, 10), ("c16_buf22_s26_l4_cut1", "quick", 900, 10),
                    ("c16_buf20_s24_l4_cut1", "quick", 900, 10), ("c16_buf24_s24_l4_cut1_anyhdr", "quick", 900, 10),
-                   ("c16_buf24_s26_l4_cut2", "thorough", 2400, 14), ("c16_buf22_s26_l4_cut2", "quick", 1500, 14), ("c16_buf22_s24_l4_cut2_anyhdr", "thorough", 2400, 14),
+                   ("c16_buf24_s26_l4_cut2", "thorough", 2400, 14), ("c16_buf22_s26_l4_cut2", "thorough", 1500, 14), ("c16_buf22_s24_l4_cut2_anyhdr", "thorough", 2400, 14),
                    ("c16_buf22_s24_l4_cut3", "thorough", 3000, 16), ("c16_buf32_s34_l12_cut1", "thorough", 2400, 14), ("c16_buf26_s34_l12_cut2", "thorough", 3000, 16)):
     m = __import__("re").match(r"c16_buf(\d+)_s(\d+)_l(\d+)_cut(\d)(_anyhdr)?", name)
     _cov = 1 + (1 if int(m.group(1)) < 20 + int(m.group(3)) else 0) + (1 if m.group(5) else 0)
@@ -184,6 +184,9 @@ def _msg_disc(k, tier="quick"):
              sample="blen=27 < needed=28 -> Err; blen=28 -> Ok(28), buf[28..] untouched")
 
 
+# measured (thorough run of 2026-10-04, 8 workers): every attribute query not listed here takes <= 40 s
+_ATTR_COSTLY = {"attr_unknown_attributes_n2": 514, "attr_unknown_attributes": 462, "attr_error_code_l6": 296, "attr_realm_l5": 204, "attr_address_error_code": 169, "attr_nonce_l4": 151,
+                "attr_realm_l3": 147, "attr_error_code_l3": 121, "attr_nonce_l2": 117, "attr_realm_l1": 106}
 _C01_SLOW = {"attr_error_code_l0", "attr_error_code_l3", "attr_error_code_l6", "attr_nonce_l2", "attr_nonce_l4", "attr_realm_l3", "attr_realm_l5", "attr_user_name_l2", "attr_user_name_l4",
              "attr_software_l6", "attr_padding_l5", "attr_password_algorithm_p4", 
              "attr_software_limit_510", "attr_unknown_attributes_n2", "attr_data_l5", "attr_mobility_ticket_l4", "attr_address_error_code"}
@@ -208,7 +211,7 @@ def _pa_layout(n, tier):
 
 _PA = [_pa_walk(16, "quick"), _pa_walk(12, "thorough"), _pa_walk(24, "thorough"), _pa_layout(3, "quick"), _pa_layout(1, "thorough"), _pa_layout(2, "thorough"), _pa_layout(4, "thorough")]
 prop("C01",
-     [_attr_h(n, "thorough" if n in _C01_SLOW else "quick") for n in _ATTR_ALL] + _PA,
+     [_attr_h(n, "thorough" if (n in _ATTR_COSTLY and n not in ("attr_realm_l1",)) else "quick") for n in _ATTR_ALL] + _PA,
      outside="PASSWORD-ALGORITHMS (the list kind: Arc<Vec<PasswordAlgorithm>> of Algorithm{Option<Arc<Vec<u8>>>}; every size instance, even the empty list, exhausted 14-28 GB after the D4 repair made add() go through Arc::make_mut; the harness source stays in verif_attrs.rs, unregistered; the singular PASSWORD-ALGORITHM kind is covered); strings longer than 6 bytes and non-ASCII strings (PRECIS / quoted-string behaviour stubbed on an ASCII alphabet); byte vectors > 5; lists > 2; messages with more than one attribute at message level (MESSAGE-INTEGRITY / FINGERPRINT tails: see C04/C10); the 509/510-byte limits only as concrete witnesses",
      assumptions=["AlgorithmId::Unassigned(0|1|2) and Some(&[]) parameters are wire aliases of Reserved/MD5/SHA256 and None and are outside the documented domain"])
 DESCR["C01"] = {
@@ -223,7 +226,7 @@ _C02_QUICK = {"attr_xor_mapped_address_v4", "attr_xor_mapped_address_v6", "attr_
 prop("C02",
      [H("stunrs", MSG + "c02_message_type_bits", timeout=300, mem_gb=3, covers=None, stubs=[NOFMT], bounds="all 16384 (method, class) pairs, both directions, arbitrary top two bits",
         funcs=["MessageType::as_u16", "MessageType::from<u16>"])]
-     + [_attr_h(n, "quick" if n in _C02_QUICK else "thorough") for n in _ATTR_ALL]
+     + [_attr_h(n, "thorough" if (n in _ATTR_COSTLY and n not in ("attr_address_error_code",)) else "quick") for n in _ATTR_ALL]
      + [_msg_disc(k, "thorough") for k in _MSG_KINDS],
      outside="as C01; the reference layouts are written in the harness from the RFC text (RFC 8489 §5/§14, RFC 8656 §18, RFC 5780 §7, RFC 8445 §16.1) and could share a misreading with the implementation; RFC 5769 vectors stay with the existing suite")
 DESCR["C02"] = {
@@ -232,7 +235,7 @@ DESCR["C02"] = {
 }
 
 prop("C14",
-     [_msg_disc(k, "quick" if k in ("even_port", "unknown_attributes", "data3", "channel_number", "xor_mapped_v4") else "thorough") for k in _MSG_KINDS]
+     [_msg_disc(k, "quick" if k in ("even_port", "data3", "xor_mapped_v4") else "thorough") for k in _MSG_KINDS]
      + [H("stunrs", MSG + "c14_msg_empty", timeout=900, mem_gb=8, covers=2, stubs=[NOFMT, TID], bounds="header-only message, buffer length 0..48 symbolic", funcs=["MessageEncoder::encode"])],
      outside="messages longer than 48 bytes; the 64 KiB boundary (16-bit length accumulator) is decided by the MIR->SMT engine when registered (see evidence)")
 DESCR["C14"] = {
@@ -269,7 +272,7 @@ _G_TIMEOUT2 = [
     _g("glue_timeout_k2_none_due", tier="thorough", timeout=2400, mem=16, bounds="2 live requests, none due", covers=1),
     _g("glue_timeout_k2_first_due", tier="thorough", timeout=2400, mem=16, bounds="2 live requests, first due", covers=1),
     _g("glue_timeout_k2_second_due", tier="thorough", timeout=2400, mem=16, bounds="2 live requests, second due", covers=1),
-    _g("glue_timeout_k2_both_due", timeout=2400, mem=16, bounds="2 live requests, both due, each schedule answer arbitrary", covers=2),
+    _g("glue_timeout_k2_both_due", tier="thorough", timeout=2400, mem=16, bounds="2 live requests, both due, each schedule answer arbitrary", covers=2),
 ]
 _G_SEND = [
     _g("glue_base", timeout=300, mem=4, bounds="fresh client", covers=0),
@@ -427,7 +430,7 @@ _C07 = [H("agentshim", ST + n, tier=t, timeout=1800, mem_gb=12, covers=c, stubs=
 _C13_PATS = [(9, 9, 9), (0, 0, 9), (0, 1, 9), (0, 2, 9), (0, 3, 9), (0, 4, 9), (0, 5, 9), (1, 0, 9), (1, 1, 9), (1, 2, 9), (1, 3, 9), (1, 4, 9), (1, 5, 9), (2, 0, 9), (2, 1, 9), (2, 2, 9), (2, 3, 9), (2, 4, 9), (2, 5, 9), (3, 0, 9), (3, 1, 9), (3, 2, 9), (3, 3, 9), (3, 4, 9), (3, 5, 9), (4, 0, 9), (4, 1, 9), (4, 2, 9), (4, 3, 9), (4, 4, 9), (4, 5, 9), (5, 0, 9), (5, 1, 9), (5, 2, 9), (5, 3, 9), (5, 4, 9), (5, 5, 9), (0, 1, 0), (0, 2, 3), (2, 0, 4), (3, 0, 5), (4, 5, 0), (5, 4, 3), (1, 1, 2), (0, 3, 4), (2, 2, 0), (5, 0, 1), (3, 4, 5), (4, 3, 2)]
 _KN = {0: "ordinary-A", 1: "ordinary-B", 2: "USERNAME", 3: "MI", 4: "SHA256", 5: "FINGERPRINT", 9: "-"}
 _C13_QUICK = {(9, 9, 9), (0, 1, 9), (0, 0, 9), (3, 4, 9), (0, 4, 9), (3, 5, 9), (5, 4, 3)}
-_C13 = [H("agentshim", ST + "c13_outgoing_p%d%d%d" % p, tier=("quick" if p in _C13_QUICK else "thorough"), timeout=1500, mem_gb=(22 if 5 in p and 0 in p else 14), covers=None, stubs=_AS, playback=False,
+_C13 = [H("agentshim", ST + "c13_outgoing_p%d%d%d" % p, tier=("quick" if p in _C13_QUICK else "thorough"), timeout=1500, mem_gb=(28 if 9 not in p else (22 if 5 in p and 0 in p else 14)), covers=None, stubs=_AS, playback=False,
           bounds="application list with the concrete kind pattern [%s] (values symbolic); mechanism state None/MI/SHA256 symbolic" % ", ".join(_KN[k] for k in p),
           funcs=["StunAttributes::add/remove", "From<StunAttributes> for Vec<StunAttribute>", "ShortTermCredentialClient::add_attributes/prepare_request_or_indication", "st_cred_mech::remove_auth_and_integrity_attrs"])
         for p in _C13_PATS]
@@ -621,3 +624,12 @@ PROPS["C18"] = PROPS["C18"] + _C18[1:]
 
 # encoder-side MAC / CRC input (message-level encode with recording HMAC stubs, c04_tail_*): re-measured with a concrete
 # message type: still 17 GB / > 20 min for the MI-only tail; not registered.
+
+# C08 tiers after the per-instance unwind bounds (every receive query is now <= 140 s): the general instances
+# (mechanism state and transport symbolic) replace their concrete twins in the quick tier
+_C08_QUICK = ("c08_prepare_without_params_or_indication", "c08_prepare_first_app0", "c08_recv_401_realm_nonce_algs", "c08_recv_401_second_challenge", "c08_recv_401_no_nonce",
+              "c08_recv_438_nonce_mi", "c08_recv_438_nonce", "c08_recv_420_mi", "c08_recv_success_mi", "c08_recv_success_wrong_kind", "c08_recv_success_plain", "c08_recv_indication", "c08_recv_request")
+for _h in _C08:
+    _h.tier = "quick" if _h.name.split("::")[-1] in _C08_QUICK else "thorough"
+    if _h.name.endswith("c08_recv_401_with_sha"):
+        _h.mem_gb = 24
